@@ -34,6 +34,17 @@ type EApply struct {
 	TipAfter   *TipObs `json:"tip_after"`
 }
 
+// ERestart2: a restart step inside a history (exh.Node.Restart: close + reopen the database, new Chain + Executer, Init
+// incl. PrepareCache); the deletes that follow take their blocks from the cache PrepareCache filled.
+type ERestartStep struct {
+	Op       string  `json:"op"`
+	Pre      []KV    `json:"pre"`
+	Post     []KV    `json:"post"`
+	Err      string  `json:"err"`
+	Panic    string  `json:"panic"`
+	TipAfter *TipObs `json:"tip_after"`
+}
+
 type EDelete struct {
 	Op             string   `json:"op"`
 	Pre            []KV     `json:"pre"`
